@@ -141,6 +141,30 @@ def handle : List String → String
       let (h, rest) ← parseHeaderToks toks
       if rest ≠ [] then none else
       pure (orReject ((h.hash H).map fmtBytes))
+  | ["raw_hdr", raw] => optS do
+      -- Block.parse_header(raw) then serialize / hash / check_pow on the parsed object
+      let raw ← parseBytes raw
+      let h := (Header.parse raw).1
+      pure s!"{orReject (h.serialize.map fmtBytes)} {orReject ((h.hash H).map fmtBytes)} {orReject ((checkPow H h).map fmtBool)}"
+  | ["raw_hdr_spec", raw] => optS do
+      -- consensus: the header is its 80 bytes; hash = reversed double-SHA256 of them
+      let raw ← parseBytes raw
+      if raw.length ≠ 80 then none else
+      pure s!"{fmtBytes raw} {fmtBytes (H raw).reverse}"
+  | "raw_headers_valid" :: toks => optS do
+      let (raws, rest) ← parseCounted oneBytes toks
+      if rest ≠ [] then none else
+      pure (orReject ((headersValid H (raws.map fun r => (Header.parse r).1)).map fmtBool))
+  | ["raw_merkleblock", msg] => optS do
+      -- MerkleBlock.parse(msg): hash(), is_valid(), proved_txs()
+      let msg ← parseBytes msg
+      pure <| orReject do
+        let ((h, total, hs, flags), _) ← merkleBlockParse msg
+        let hh ← h.hash H
+        match isValid H h.merkleRoot total hs flags with
+        | .error _ => pure "FUEL"
+        | .ok none => pure s!"{fmtBytes hh} {REJECT}"
+        | .ok (some (ok, proved)) => pure s!"{fmtBytes hh} {fmtBool ok} {fmtBytesList proved}"
   | "headers_valid" :: toks => optS do
       let (hs, rest) ← parseCounted parseHeaderToks toks
       if rest ≠ [] then none else
